@@ -127,6 +127,56 @@ Section Stream.
     end.
 End Stream.
 
+(* ---- both directions of a connection: the endpoints share one buffer for sending and receiving ----
+   conn->databuf holds the unread remainder of a received record (conn->data / conn->datalen) AND
+   is where tls_encrypt_send assembles the outgoing plaintext record.  tls_encrypt_send therefore
+   refuses to send while received data is pending ("recv all buffered data before send");
+   tls13_send encrypts from the caller's buffer and must leave the pending data alone.
+   [refuse_when_pending] = true for TLCP / TLS 1.2, false for TLS 1.3. *)
+Record duplex := mk_duplex { c2s : dir_state; s2c : dir_state }.
+Definition duplex_init : duplex := mk_duplex dir_init dir_init.
+
+Section Duplex.
+  Variable clamp : option nat.
+  Variable cap : option nat.
+  Variable allow_empty : bool.
+  Variable refuse_when_pending : bool.
+
+  Definition outgoing (d : duplex) (client : bool) : dir_state := if client then c2s d else s2c d.
+  Definition incoming (d : duplex) (client : bool) : dir_state := if client then s2c d else c2s d.
+  Definition set_outgoing (d : duplex) (client : bool) (x : dir_state) : duplex :=
+    if client then mk_duplex x (s2c d) else mk_duplex (c2s d) x.
+  Definition set_incoming (d : duplex) (client : bool) (x : dir_state) : duplex :=
+    if client then mk_duplex (c2s d) x else mk_duplex x (s2c d).
+  Definition has_pending (d : duplex) (client : bool) : bool :=
+    match rbuf (incoming d client) with [] => false | _ => true end.
+
+  (* one send call on an endpoint *)
+  Definition dsend (d : duplex) (client : bool) (inp : list N) : res (duplex * nat) :=
+    if refuse_when_pending && has_pending d client then Err else
+    match send1 clamp cap allow_empty (outgoing d client) inp with
+    | Ok (x, n) => Ok (set_outgoing d client x, n)
+    | Err => Err | Fault => Fault
+    end.
+  (* the application's write loop on an endpoint (the pending data does not change during it) *)
+  Definition dwrite (d : duplex) (client : bool) (inp : list N) : res (duplex * list nat) :=
+    match inp with
+    | [] => Ok (d, [])
+    | _ =>
+      if refuse_when_pending && has_pending d client then Err else
+      match write_all clamp cap allow_empty (length inp) (outgoing d client) inp with
+      | Ok (x, ns) => Ok (set_outgoing d client x, ns)
+      | Err => Err | Fault => Fault
+      end
+    end.
+  (* one receive call on an endpoint *)
+  Definition drecv (d : duplex) (client : bool) (outlen : nat) : res (duplex * list N) :=
+    match recv1 (incoming d client) outlen with
+    | Ok (x, data) => Ok (set_incoming d client x, data)
+    | Err => Err | Fault => Fault
+    end.
+End Duplex.
+
 (* the two instances *)
 Definition max_plain : nat := N.to_nat 16384.
 Definition cap13 : nat := N.to_nat 18415.
